@@ -68,7 +68,14 @@ class CircWorld(StateWorld):
         cc = [c for c in sorted(self.cw) if self.cw[c]["cls"] == "CliffordCircuit"]
         if not cc:
             return None
-        return {"op": "badcompose", "dst": rng.choice(cc), "n": self.n + rng.choice([1, 2, -1]) or 1}
+        n2 = self.n + rng.choice([1, 2, -1]) or 1
+        # the other circuit carries a few generator gates: some inside the receiver's register,
+        # possibly one outside - a rejected compose must not leave any of them behind
+        gates = []
+        for _ in range(rng.randrange(0, 4)):
+            q = rng.randrange(n2)
+            gates.append({"q": q, "G": rm.pstr(rm.rand_hermitian(rng, 1))})
+        return {"op": "badcompose", "dst": rng.choice(cc), "n": n2, "gates": gates}
 
     def _p_ccopy(self, rng):
         cc = [c for c in sorted(self.cw) if self.cw[c]["cls"] == "CliffordCircuit"]
@@ -252,6 +259,11 @@ class CircWorld(StateWorld):
         if op["n"] == self.n or op["n"] < 1 or self.S.name != "numpy":
             raise Skip()
         other = self.pc.identity_circuit(op["n"])
+        for g in op.get("gates", []):
+            if g["q"] < op["n"]:
+                gate = self.pc.CliffordGate(g["q"])
+                gate.set_generator(self.S.mk_pauli(rm.pparse(g["G"])))
+                other.take(gate)
         self.stats["rejected_op"] += 1
         try:
             dst["obj"].compose(other)
